@@ -13,9 +13,12 @@ import (
 	"fmt"
 	"math"
 	"math/rand"
+	"os"
 	"sort"
 	"strings"
+	"sync/atomic"
 	"testing"
+	"time"
 
 	"github.com/fogfish/golem/maplike"
 	"github.com/fogfish/golem/maplike/skiplist"
@@ -313,8 +316,48 @@ func judge[K any](ks keyspace[K], desc bool, list maplike.MapLike[K, int], level
 	}
 }
 
+// A map operation on a handful of keys takes microseconds.  The watchdog reports the history and the operation that has not
+// returned within VERIF_OP_TIMEOUT_S (default 30) seconds as a finding of its own (Terminates) and ends the process with
+// status 3: "answers like an ordinary map" includes answering at all.
+type inFlight struct {
+	space string
+	ci    int
+	hist  []op
+	last  *op
+}
+
+var (
+	current atomic.Pointer[inFlight]
+	beat    atomic.Int64
+)
+
+func mark(space string, ci int, hist []op, last *op) {
+	current.Store(&inFlight{space, ci, hist, last})
+	beat.Add(1)
+}
+
+func watchdog(out *vio.Out) {
+	limit := time.Duration(vio.EnvInt("VERIF_OP_TIMEOUT_S", 30)) * time.Second
+	go func() {
+		seen, since := beat.Load(), time.Now()
+		for {
+			time.Sleep(500 * time.Millisecond)
+			if b := beat.Load(); b != seen {
+				seen, since = b, time.Now()
+				continue
+			}
+			if c := current.Load(); c != nil && time.Since(since) > limit {
+				out.Put(finding{T: "pviol", Space: c.space, Case: c.ci, Hist: c.hist, Last: c.last, Pred: "Terminates", Want: "the operation returns", Got: fmt.Sprintf("no return within %v", limit)})
+				out.Flush()
+				os.Exit(3)
+			}
+		}
+	}()
+}
+
 func replaySpace[K any](ks keyspace[K], desc bool, cases []genCase, levels int, out *vio.Out, st *stats) {
 	for ci, c := range cases {
+		mark(ks.name, ci, c.Hist, nil)
 		build := func() (maplike.MapLike[K, int], *heightSource) {
 			src := &heightSource{h: 1}
 			l := skiplist.NewWithSource[K, int](ks.cmp, src)
@@ -342,6 +385,7 @@ func replaySpace[K any](ks keyspace[K], desc bool, cases []genCase, levels int, 
 		for _, s := range c.Succ.Put {
 			l, src := build()
 			last = &op{Op: "put", K: s.K, V: s.V, H: s.H}
+			mark(ks.name, ci, c.Hist, last)
 			src.h = s.H
 			if r := l.Put(ks.key(s.K), s.V); r != l {
 				emit("drift", "PutReturnsReceiver", "same list", "another value")
@@ -352,6 +396,7 @@ func replaySpace[K any](ks keyspace[K], desc bool, cases []genCase, levels int, 
 		for _, s := range c.Succ.Remove {
 			l, _ := build()
 			last = &op{Op: "remove", K: s.K}
+			mark(ks.name, ci, c.Hist, last)
 			if r := l.Remove(ks.key(s.K)); r != s.Ret {
 				emit("pviol", "RemoveResult", s.Ret, r)
 			}
@@ -374,6 +419,7 @@ func replaySpace[K any](ks keyspace[K], desc bool, cases []genCase, levels int, 
 		l, _ = build()
 		for _, s := range c.Succ.Get {
 			last = &op{Op: "get", K: s.K}
+			mark(ks.name, ci, c.Hist, last)
 			if r := l.Get(ks.key(s.K)); r != s.Ret {
 				emit("pviol", "GetResult", s.Ret, r)
 			}
@@ -417,6 +463,7 @@ func TestReplay(t *testing.T) {
 	desc := vio.Env("VERIF_ORDER", "asc") == "desc"
 	st := &stats{}
 	nkeys = maxKey
+	watchdog(out)
 	replaySpace(intSpace(maxKey, desc), desc, cases, levels, out, st)
 	replaySpace(intZeroSpace(maxKey, desc), desc, cases, levels, out, st)
 	replaySpace(strSpace(maxKey, desc), desc, cases, levels, out, st)
@@ -510,6 +557,7 @@ func randomSpace[K any](ks keyspace[K], order string, rng *rand.Rand, nkeys, nop
 	for i := 0; i < nops; i++ {
 		k := 1 + rng.Intn(nkeys)
 		s := step{K: k}
+		mark(ks.name+"/"+order+"/random", i, nil, &op{Op: "operation", K: k})
 		switch r := rng.Intn(10); {
 		case r < 5:
 			s.Op, s.V = "put", 1+rng.Intn(3)
@@ -557,6 +605,7 @@ func TestRandom(t *testing.T) {
 		t.Fatal(err)
 	}
 	defer out.Close()
+	watchdog(out)
 	rng := rand.New(rand.NewSource(int64(vio.EnvInt("VERIF_SEED", 1))))
 	n := vio.EnvInt("VERIF_N", 20)
 	for i := 0; i < n; i++ {
